@@ -37,7 +37,8 @@ pub fn spawn_program(bus: &mut Bus, prng: &mut Rng, mix: &str, tokens: &Rc<Cell<
                 let latch = Latch::new(ncallers as i64);
                 let sub_all = prng.chance(1, 2);
                 let ctx = mk_ctx(bus, scl, format!("c{scl}.server{s}"), prng, tokens);
-                bus.spawn_app(ctx.name.clone(), roles::server(ctx, s, s, slot.clone(), latch.clone(), sub_all));
+                let emits = if want("events") { 3 + prng.below(8) } else { prng.below(3) };
+                bus.spawn_app(ctx.name.clone(), roles::server(ctx, s, s, slot.clone(), latch.clone(), sub_all, emits));
                 roles_n += 1;
                 for c in 0..ncallers {
                     let ccl = prng.below(n as u64) as usize;
@@ -47,10 +48,10 @@ pub fn spawn_program(bus: &mut Bus, prng: &mut Rng, mix: &str, tokens: &Rc<Cell<
                     roles_n += 1;
                 }
                 if want("events") {
-                    for c in 0..prng.below(3) {
+                    for c in 0..prng.below(4) {
                         let ccl = prng.below(n as u64) as usize;
                         let ctx = mk_ctx(bus, ccl, format!("c{ccl}.sub{s}_{c}"), prng, tokens);
-                        let all = prng.chance(1, 3);
+                        let all = prng.chance(2, 5);
                         let ev = prng.below(2) as u32;
                         let k = 1 + prng.below(4);
                         bus.spawn_app(ctx.name.clone(), roles::subscriber(ctx, s, slot.clone(), all, ev, k));
